@@ -12,6 +12,12 @@ CLAIMS = {
             "after setting it, every resolved (class, apply-method) pair passes the not-fitted guard on every path to a "
             "normal return, and the composite get/set parameter plumbing keeps its documented order and separator. "
             "Covers the full class x method product the runtime suite cannot import.", "3/C04"),
+    "C20": ("Call discipline of input validation: every forecaster/composite/splitter/tuning/evaluate/train-test-split/horizon "
+            "entry point passes the relevant validator on every path before first use (must-call per concrete class), the validators' "
+            "own rejection predicates equal their specification by exhaustive truth table, string dispatch has a rejecting default, "
+            "window feasibility is entailed by dominating guards (affine facts), no fitted flag can be set on a rejecting path, and the "
+            "two horizon mixins implement their decision tables. Decides which inputs can reach a result without a check, not the "
+            "exception type raised inside third-party code.", "3/C20"),
     "C01": ("Window/cutoff/test index arithmetic of the four splitters and _split_by_fh as affine identities over "
             "symbolic n, fh, window, step; feasibility guards entail in-bounds and are tight; reported cutoffs "
             "equal yielded cutoffs; unshuffled partition. All configurations of the quantifier are covered "
